@@ -58,7 +58,7 @@ def reference(op, a, b):
 
 
 FORMS_Q = ["ll", "vv", "vl", "asg"]
-FORMS_ALL = ["ll", "vv", "vl", "lv", "asg", "asgl", "elem", "field", "fn"]
+FORMS_ALL = ["ll", "vv", "vl", "lv", "asg", "asgl", "elem", "field", "fn", "fieldl", "elemv", "nested"]
 ASG = {"+": "+=", "-": "-=", "*": "*=", "/": "/=", "%": "%="}
 DECLS = "type VerifBox = {\n  v: int\n}\nfn verif_id(x: int) -> int = x\n"
 
@@ -88,6 +88,12 @@ def body(op, a, b, form):
         return "let xs = [0, %s]\nxs[1] %s %s\nprintln(xs[1])" % (lit(a), ASG[op], lit(b))
     if form == "field":
         return "let s = VerifBox(%s)\nlet b = verif_id(%s)\ns.v %s b\nprintln(s.v)" % (lit(a), lit(b), ASG[op])
+    if form == "fieldl":
+        return "let s = VerifBox(%s)\ns.v %s %s\nprintln(s.v)" % (lit(a), ASG[op], lit(b))
+    if form == "elemv":
+        return "let xs = [0, verif_id(%s)]\nlet b = verif_id(%s)\nxs[1] %s b\nprintln(xs[1])" % (lit(a), lit(b), ASG[op])
+    if form == "nested":
+        return "let ss = [VerifBox(%s)]\nlet b = verif_id(%s)\nss[0].v %s b\nprintln(ss[0].v)" % (lit(a), lit(b), ASG[op])
     return None
 
 
@@ -97,7 +103,9 @@ def sig_of(c):
 
 def gen_cases(ctx):
     g = grid()
-    forms = FORMS_Q if ctx.quick else FORMS_ALL
+    # every operand form in both tiers: quick gives each grid point 2 of the forms (rotating), so each
+    # form still sees 2/9 of the grid
+    forms = FORMS_ALL
     pairs = [(a, b) for a in g for b in g]
     nrand = 1500 if ctx.quick else 40000
     r = ctx.rng.fork("pairs")
